@@ -2,9 +2,33 @@ from __future__ import annotations
 
 from distreqx import distributions
 from jax import numpy as jnp
-from jaxtyping import Array, ArrayLike, Bool, Float, Integer
+from jax import random as jr
+from jaxtyping import Array, ArrayLike, Bool, Float, Integer, Key
 
 from .base_distribution import AbstractDistreqxWrapper, AbstractMaskableDistribution
+
+
+def categorical_mode(distribution: distributions.Categorical) -> Integer[Array, ""]:
+    """
+    Mode of a distreqx Categorical as an index of JAX's default integer dtype.
+
+    distreqx casts the index to int8, which wraps around beyond 127 categories.
+    """
+    return jnp.argmax(distribution.logits, axis=-1)
+
+
+def categorical_sample(
+    distribution: distributions.Categorical, key: Key[Array, ""]
+) -> Integer[Array, ""]:
+    """
+    Sample of a distreqx Categorical as an index of JAX's default integer dtype.
+
+    distreqx casts the index to int8, which wraps around beyond 127 categories.
+    """
+    probs = distribution.probs
+    is_valid = jnp.all(jnp.isfinite(probs) & (probs >= 0), axis=-1)
+    draws = jr.categorical(key, distribution.logits, axis=-1)
+    return jnp.where(is_valid, draws, -1)
 
 
 class Categorical(
@@ -41,6 +65,18 @@ class Categorical(
     @property
     def probs(self) -> Float[Array, " dims"]:
         return self.distribution.probs
+
+    def sample(self, key: Key[Array, ""]) -> Integer[Array, ""]:
+        return categorical_sample(self.distribution, key)
+
+    def mode(self) -> Integer[Array, ""]:
+        return categorical_mode(self.distribution)
+
+    def sample_and_log_prob(
+        self, key: Key[Array, ""]
+    ) -> tuple[Integer[Array, ""], Float[Array, ""]]:
+        sample = self.sample(key)
+        return sample, self.log_prob(sample)
 
     def mask(self, mask: Bool[Array, " dims"]) -> Categorical:
         masked_logits = jnp.where(mask, self.logits, -jnp.inf)
